@@ -68,7 +68,7 @@ def enter_line(qual, names, indent="    "):
 
 def gen_module(rng, modname, with_async_gen=False):
     """returns (source, functions) where functions = list of dicts describing each callable thing"""
-    src = ["import functools\nimport mtv.recorder as _r\n\n",
+    src = ["import functools\nimport types as _types\nimport mtv.recorder as _r\n\n",
            "def deco(f):\n    @functools.wraps(f)\n    def wrapper(*a, **k):\n"
            "        _t = _r.enter('deco.<locals>.wrapper')   # the wrapper is a traced function too; it reports under its code's qualname\n"
            "        try:\n            v = f(*a, **k)\n        except BaseException:\n            _r.raising(_t, None)\n            raise\n"
@@ -104,6 +104,12 @@ def gen_module(rng, modname, with_async_gen=False):
                "    try:\n        mf3(a) if False else thrower(a)\n    except ValueError:\n        pass\n    return _r.ret(_t, 'recovered')\n\n")
     src.append("def thrower(a):\n" + enter_line("thrower", ["a"]) + body_exit("raise") + "\n")
     funcs.append({"qual": "catcher", "call": "catcher", "kind": "function", "mk": PARAM_SHAPES[0][2], "exit": "const", "params": ["a"]})
+    # values that contain themselves: a list holding itself, a tree of dicts with parent links
+    src.append("def cyc_take(x):\n" + enter_line("cyc_take", ["x"]) +
+               "    d = {'kids': [], 'up': None}\n    c = {'kids': [], 'up': d}\n    d['kids'].append(c)\n    return _r.ret(_t, d)\n\n"
+               "def cyc(a):\n" + enter_line("cyc", ["a"]) +
+               "    l = [a]\n    l.append(l)\n    r = cyc_take(l)\n    return _r.ret(_t, len(r))\n\n")
+    funcs.append({"qual": "cyc", "call": "cyc", "kind": "function", "mk": PARAM_SHAPES[0][2], "exit": "expr", "params": ["a"]})
     # generators
     src.append("def gen(a, n=2):\n" + enter_line("gen", ["a", "n"]) +
                "    for i in range(n):\n        a = str(a)  # rebinds its parameter between yields\n        yield _r.yielded(_t, i if i % 2 == 0 else a)\n"
@@ -135,6 +141,11 @@ def gen_module(rng, modname, with_async_gen=False):
                "    yield _r.yielded(_t, a)\n    if a % 2:\n        return _r.ret(_t, 'v')\n    _r.ret(_t, None)\n\n")
     funcs.append({"qual": "gen_optret", "call": "gen_optret", "kind": "generator", "mk": lambda vals: ((vals.rng.randrange(8),), {}),
                   "exit": "gen", "params": ["a"]})
+    # a generator-based coroutine (`@types.coroutine`, the trap of curio / trio-style event loops): still a generator whose yields
+    # hand out real values, with CO_ITERABLE_COROUTINE set on its code
+    src.append("@_types.coroutine\ndef gen_tcoro(a):\n" + enter_line("gen_tcoro", ["a"]) +
+               "    yield _r.yielded(_t, a)\n    yield _r.yielded(_t, 1.5)\n    return _r.ret(_t, 'tc')\n\n")
+    funcs.append({"qual": "gen_tcoro", "call": "gen_tcoro", "kind": "generator", "mk": PARAM_SHAPES[0][2], "exit": "gen", "params": ["a"]})
     # coroutines
     src.append("async def coro(a, b=None):\n" + enter_line("coro", ["a", "b"]) +
                "    x = await _r.Suspend()\n    y = await _r.Suspend()\n    return _r.ret(_t, (a, x + y))\n\n")
